@@ -70,7 +70,19 @@ def factory(clsname):
         return lambda label: SlotLM(str(label))
     if clsname == "DictLM":
         return lambda label: DictLM(str(label))
+    if clsname == "SymlinkNode":
+        # the target sits deep inside another tree and has children of its own, so that any
+        # structural value wrongly forwarded to the target differs from the link's own value
+        def make_link(label):
+            top = Node("target-root")
+            mid = Node("target-mid", parent=top)
+            target = Node(str(label), parent=mid)
+            Node("target-child", parent=target)
+            Node("target-sibling", parent=mid)
+            return SymlinkNode(target)
+
+        return make_link
     raise ValueError(clsname)
 
 
-TREE_CLASSES = ["Node", "AnyNode", "PlainNM", "SlotLM", "DictLM"]
+TREE_CLASSES = ["Node", "AnyNode", "PlainNM", "SlotLM", "DictLM", "SymlinkNode"]
